@@ -44,6 +44,7 @@ type Config interface {
 	Clear()
 	Shrink()
 	Commit()
+	ForceRewrite()
 }
 
 type config struct {
@@ -59,6 +60,8 @@ type config struct {
 	tcpbackends *hatypes.TCPBackends
 	tcpservices *hatypes.TCPServices
 	userlists   *hatypes.Userlists
+	// rewrite all the files in the next write, despite of what was changed
+	rewriteAll bool
 }
 
 type options struct {
@@ -146,7 +149,7 @@ func (c *config) SyncConfig() {
 // config file. This func doesn't change model state, except the
 // link to the tcp services maps.
 func (c *config) WriteTCPServicesMaps() error {
-	if !c.tcpservices.Changed() {
+	if !c.tcpservices.Changed() && !c.rewriteAll {
 		return nil
 	}
 	mapBuilder := hatypes.CreateMaps(c.global.MatchOrder)
@@ -387,12 +390,16 @@ func (c *config) rootRedirectBackendChanged() bool {
 // link to the backend maps.
 func (c *config) WriteBackendMaps() error {
 	// TODO rename HostMap types to HAProxyMap
-	if !c.backends.Changed() {
+	if !c.backends.Changed() && !c.rewriteAll {
 		// backends are clean, maps are updated
 		return nil
 	}
 	mapBuilder := hatypes.CreateMaps(c.global.MatchOrder)
-	for _, backend := range c.backends.ItemsAdd() {
+	backends := c.backends.ItemsAdd()
+	if c.rewriteAll {
+		backends = c.backends.Items()
+	}
+	for _, backend := range backends {
 		if backend.NeedACL() {
 			mapsPrefix := c.options.mapsDir + "/_back_" + backend.ID
 			pathsMap := mapBuilder.AddMap(mapsPrefix + "_idpath.map")
@@ -476,12 +483,21 @@ func (c *config) Clear() {
 	*c = *config
 }
 
+// ForceRewrite makes the next Write*Maps calls and the next configuration
+// write render every file, whatever the changed-sets say.
+func (c *config) ForceRewrite() {
+	c.rewriteAll = true
+	c.frontend.Maps = nil
+	c.backends.AllShardsChanged()
+}
+
 func (c *config) Shrink() {
 	c.hosts.Shrink()
 	c.backends.Shrink()
 }
 
 func (c *config) Commit() {
+	c.rewriteAll = false
 	if !reflect.DeepEqual(c.globalOld, c.global) {
 		// globals still uses the old deepCopy+fullParsing+deepEqual strategy
 		var globalOld hatypes.Global
